@@ -222,6 +222,8 @@ type seqModel struct {
 	// maybeHeld: held REPLACEs whose target has gone and whose references still do not resolve, dropped here on
 	// a retry because the tree looks at the target first; a server that looks at the references first keeps them
 	maybeHeld map[uint64]*opRec
+	// gone: the session that sent a held operation has ended or lost the primary role (a server may discard it)
+	gone func(*opRec) bool
 }
 
 func (q *seqModel) note(rec *opRec, en *Entry) {
@@ -384,7 +386,7 @@ func (e *env) matchPrefix(items []cutItem, minK int, what string, last *[2]uint6
 	if id != nil {
 		implMax = [2]uint64{id.High, id.Low}
 	}
-	q := &seqModel{m: e.model.Clone(), held: e.heldRecs(), max: e.maxElec, last: last, impl: impl, implHeld: implHeld}
+	q := &seqModel{m: e.model.Clone(), held: e.heldRecs(), max: e.maxElec, last: last, impl: impl, implHeld: implHeld, gone: e.sessionGone}
 	bestK, bestDesc, bestN := -1, "", 1<<30
 	for k := 0; ; k++ {
 		okSnap := false
@@ -525,6 +527,9 @@ func (q *seqModel) sameHeld(b map[uint64]bool) bool {
 			continue
 		}
 		if v, _, why := q.m.Expect(rec.op); v == VFail && why == "replace of missing entry" {
+			continue
+		}
+		if q.gone != nil && q.gone(rec) {
 			continue
 		}
 		return false
